@@ -31,7 +31,7 @@ LEVEL_TEXT = ("Lean: Faithful (every registry entry points at an existing unit t
               "Per run the registries regenerated from /repo satisfy the invariants (init_faithful, init_prefixes_faithful, "
               "init_dimensions_faithful: decidable checkers evaluated by the kernel, lifted by soundness lemmas). Tied to the code by "
               "differential execution of generated naming histories on both sides and a registry oracle after every operation.")
-LEVEL_NOTE = ("Dimension.define (which widens every key) and the symbol text of dimensions are not modelled; Logarithm/LogarithmicUnit "
+LEVEL_NOTE = ("A SUCCESSFUL Dimension.define (which widens every key) and the symbol text of dimensions are not modelled (a failing one is: it must raise before anything is widened); Logarithm/LogarithmicUnit "
               "naming is outside the property. `exceptions raised part-way through a definition' are covered for the exceptions the "
               "library itself raises (ValueError); an asynchronous exception (KeyboardInterrupt, MemoryError) between two registry "
               "writes is runtime behaviour no executable model of the call exhibits. Module import orders are checked on the "
@@ -65,6 +65,10 @@ def snapshot():
         "pnames": {id(p): (p.name, p.symbol) for p in Prefix._known.values()},
         "dnames": {id(d): (d.name, d.symbol) for d in Dimension._known.values()},
         "sizes": (len(Unit._known), len(Prefix._known), len(Dimension._known), len(Unit._base)),
+        # the intern tables themselves (key -> object) and what fixes a dimension's key
+        "uk": dict(Unit._known), "pk": dict(Prefix._known), "dk": dict(Dimension._known),
+        "dexp": {id(d): d.exponents for d in Dimension._known.values()},
+        "fund": list(Dimension._fundamental),
     }
 
 
@@ -131,11 +135,16 @@ def oracle(ctx, line, res):
     for reg, key, why in faithful_failures()[:3]:
         fails.append({"kind": "unfaithful-registry", "registry": reg, "key": key, "why": why})
     # (2) a call that raised changed nothing
-    if res.startswith("ERR") and f[1] in ("define", "derive", "alias", "pfx", "dim", "dderive"):
+    if res.startswith("ERR") and f[1] in ("define", "derive", "alias", "pfx", "dim", "dderive", "ddefine"):
         ctx.extra["raised"] += 1
         b = ctx.before
         changed = [k for k in ("un", "us", "pn", "ps", "dn") if not same_dict(b[k], now[k])]
         changed += [k for k in ("unames", "pnames", "dnames") if any(b[k].get(i) != v for i, v in now[k].items() if i in b[k])]
+        changed += ["intern-table " + k for k in ("uk", "pk", "dk") if not same_dict(b[k], now[k])]
+        if b["dexp"] != now["dexp"]:
+            changed.append("dimension-exponents")
+        if len(b["fund"]) != len(now["fund"]) or any(x is not y for x, y in zip(b["fund"], now["fund"])):
+            changed.append("fundamental-dimensions")
         if b["sizes"] != now["sizes"]:
             changed.append("intern-table-sizes %s -> %s" % (b["sizes"], now["sizes"]))
         if changed:
@@ -181,7 +190,7 @@ def oracle(ctx, line, res):
 
 def nontrivial(ctx, line, res):
     f = line.split("\t")
-    if f[0] in ("U", "N") and f[1] in ("define", "derive", "alias", "pfx", "dim", "dderive", "named", "resolve"):
+    if f[0] in ("U", "N") and f[1] in ("define", "derive", "alias", "pfx", "dim", "dderive", "ddefine", "named", "resolve"):
         return line
     return None
 
@@ -303,9 +312,12 @@ def generate(ctx, n_ops):
                 nm = rng.choice([fresh("dn"), "length", "area", fresh("dn")])
                 line = "N\t%s\td%s\t%s\t%s" % (op, ",".join(map(str, ex)), nm, rng.choice(["-", fresh("ds")]))
                 ctx.extra["declared_after_anonymous"] += 1
-            else:
+            elif k < 0.8:
                 d = rng.choice(list(Dimension._by_name.values()))
                 line = "N\t%s\t%s\t%s\t-" % (rng.choice(["dim", "dderive"]), dim_tok(d), rng.choice([d.name, fresh("dn"), "speed", "length"]))
+            else:
+                # a fundamental definition that must fail: the name is taken (any symbol)
+                line = "N\tddefine\t%s\t%s" % (rng.choice(list(Dimension._by_name)), rng.choice(["-", fresh("ds"), "L", "T"]))
         else:
             line = rng.choice(["STATE", "N\tpstate", "N\tdstate"])
         yield line
